@@ -54,6 +54,16 @@ func intersectFacts(a, b *FactSet) *FactSet {
 	for k, v := range a.Atoms {
 		if _, ok := b.Atoms[k]; ok {
 			n.Atoms[k] = v
+		} else if (v.Op == "<=" || v.Op == "<" || v.Op == "!=") && b.holds1(v) {
+			n.Atoms[k] = v // implied on the other side (e.g. 8 <= x there, 8 < x here)
+		}
+	}
+	for k, v := range b.Atoms {
+		if _, ok := n.Atoms[k]; ok {
+			continue
+		}
+		if _, ok := a.Atoms[k]; !ok && (v.Op == "<=" || v.Op == "<" || v.Op == "!=") && a.holds1(v) {
+			n.Atoms[k] = v
 		}
 	}
 	for k, v := range a.Defs {
@@ -142,6 +152,22 @@ func (f *FactSet) holds1(c *Term) bool {
 	has := func(t *Term) bool { _, ok := atoms[normTerm(t).Key()]; return ok }
 	if has(c) {
 		return true
+	}
+	switch c.Op {
+	case "<=", "<":
+		// constant bounds, with one step of transitivity through another term
+		a, b := c.Args[0], c.Args[1]
+		strict := c.Op == "<"
+		if a.IsConst() {
+			if lo, ok := f.lowerConst(atoms, b, 0); ok && (lo > a.Int || (!strict && lo == a.Int)) {
+				return true
+			}
+		}
+		if b.IsConst() {
+			if hi, ok := f.upperConst(atoms, a, 0); ok && (hi < b.Int || (!strict && hi == b.Int)) {
+				return true
+			}
+		}
 	}
 	switch c.Op {
 	case "<=":
@@ -239,13 +265,14 @@ func (p *Prog) pureTerm(t *Term) bool {
 // termReads collects what a term depends on.
 type readSet struct {
 	fields map[*types.Var]bool
+	deepF  map[*types.Var]bool // fields whose referent's contents are read (not just the header/value)
 	vars   map[*types.Var]bool // local vars (value)
 	deep   map[*types.Var]bool // local vars whose contents are read (not just len/cap)
 	globs  map[*types.Var]bool
 }
 
 func (p *Prog) termReads(t *Term) *readSet {
-	rs := &readSet{fields: map[*types.Var]bool{}, vars: map[*types.Var]bool{}, deep: map[*types.Var]bool{}, globs: map[*types.Var]bool{}}
+	rs := &readSet{fields: map[*types.Var]bool{}, deepF: map[*types.Var]bool{}, vars: map[*types.Var]bool{}, deep: map[*types.Var]bool{}, globs: map[*types.Var]bool{}}
 	var walk func(x *Term, shallow bool)
 	walk = func(x *Term, shallow bool) {
 		if x == nil {
@@ -267,7 +294,14 @@ func (p *Prog) termReads(t *Term) *readSet {
 		case "fld":
 			if v, ok := x.Obj.(*types.Var); ok {
 				rs.fields[v] = true
+				if !shallow {
+					rs.deepF[v] = true
+				}
 			}
+			for _, a := range x.Args {
+				walk(a, false)
+			}
+			return
 		case "len", "cap":
 			for _, a := range x.Args {
 				walk(a, true)
@@ -285,6 +319,7 @@ func (p *Prog) termReads(t *Term) *readSet {
 					te := p.TransEffects(fi)
 					for r := range te.FieldR {
 						rs.fields[r] = true
+						rs.deepF[r] = true
 					}
 					for r := range te.GlobR {
 						rs.globs[r] = true
@@ -296,14 +331,19 @@ func (p *Prog) termReads(t *Term) *readSet {
 			walk(a, false)
 		}
 	}
-	walk(t, false)
+	// the value of the term itself: a field/variable denoting a slice or map is
+	// read as a header only; comparisons and arithmetic read scalar values
+	walk(t, true)
 	return rs
 }
 
 func (p *Prog) killedBy(t *Term, te *TransEffects, own *Effects) bool {
 	rs := p.termReads(t)
 	for f := range rs.fields {
-		if te.FieldW[f] || te.ElemW[f] {
+		if te.FieldW[f] {
+			return true
+		}
+		if te.ElemW[f] && (rs.deepF[f] || !refLike(f.Type())) {
 			return true
 		}
 	}
@@ -393,10 +433,41 @@ func (fa *Facts) transfer(fs *FactSet, n ast.Node) {
 			}
 		}
 	}
+	// x = x[c:] with a constant c: lower bounds on len(x) shift by c
+	var reslice []*Term
+	if as, ok := n.(*ast.AssignStmt); ok && len(as.Lhs) == 1 && len(as.Rhs) == 1 && as.Tok == token.ASSIGN {
+		if id, ok := ast.Unparen(as.Lhs[0]).(*ast.Ident); ok {
+			if v, ok := p.Info.Uses[id].(*types.Var); ok {
+				if se, ok := ast.Unparen(as.Rhs[0]).(*ast.SliceExpr); ok && se.High == nil && se.Low != nil {
+					if bid, ok := ast.Unparen(se.X).(*ast.Ident); ok && p.Info.Uses[bid] == v {
+						if c, ok := p.constVal(se.Low); ok && c >= 0 {
+							lx := mk("len", tVar(v))
+							for _, a := range fs.Atoms {
+								if (a.Op == "<=" || a.Op == "<") && a.Args[1].Key() == lx.Key() && !a.Args[0].Contains(tVar(v)) {
+									if a.Args[0].IsConst() {
+										nk := a.Args[0].Int - c
+										if a.Op == "<" {
+											nk++ // K < len  ==  K+1 <= len
+										}
+										if nk > 0 {
+											reslice = append(reslice, le(tConst(nk), lx))
+										}
+									}
+								}
+							}
+						}
+					}
+				}
+			}
+		}
+	}
 	for k, a := range fs.Atoms {
 		if p.killedBy(a, te, own) {
 			delete(fs.Atoms, k)
 		}
+	}
+	for _, a := range reslice {
+		fs.Atoms[a.Key()] = a
 	}
 	for _, a := range saved {
 		// the bound itself must not have been written by this statement
@@ -467,6 +538,20 @@ func (fa *Facts) transfer(fs *FactSet, n ast.Node) {
 		if (x.Tok == token.DEFINE || x.Tok == token.ASSIGN) && len(x.Lhs) == len(x.Rhs) {
 			for i := range x.Lhs {
 				def(x.Lhs[i], x.Rhs[i])
+			}
+			// X.f = simple value: the two inequalities between the field and the value
+			if x.Tok == token.ASSIGN {
+				for i := range x.Lhs {
+					lt := p.Term(x.Lhs[i])
+					if lt.Op != "fld" || !isIntegerType(p.Info.TypeOf(x.Lhs[i])) {
+						continue
+					}
+					rt := p.stripBoundedConv(fs, p.Term(x.Rhs[i]))
+					if (rt.Op == "var" || rt.Op == "fld" || rt.Op == "const") && p.pureTerm(rt) && !rt.Contains(lt) {
+						fs.add(le(rt, lt))
+						fs.add(le(lt, rt))
+					}
+				}
 			}
 		}
 	case *ast.DeclStmt:
@@ -803,4 +888,105 @@ func (fa *Facts) killRangeVars(fs *FactSet, rs *ast.RangeStmt) {
 			delete(fs.Defs, v)
 		}
 	}
+}
+
+// lowerConst: the largest constant K with K <= t derivable from the atoms
+// (directly, or through one chain Y <= t with a constant lower bound of Y).
+func (f *FactSet) lowerConst(atoms map[string]*Term, t *Term, depth int) (int64, bool) {
+	if t.IsConst() {
+		return t.Int, true
+	}
+	best, ok := int64(0), false
+	upd := func(v int64) {
+		if !ok || v > best {
+			best, ok = v, true
+		}
+	}
+	tk := t.Key()
+	for _, a := range atoms {
+		switch a.Op {
+		case "<=", "<":
+			if a.Args[1].Key() != tk {
+				continue
+			}
+			x := a.Args[0]
+			add := int64(0)
+			if a.Op == "<" {
+				add = 1
+			}
+			if x.IsConst() {
+				upd(x.Int + add)
+			} else if depth < 2 {
+				if v, o := f.lowerConst(atoms, x, depth+1); o {
+					upd(v + add)
+				}
+			}
+		case "==":
+			for i := 0; i < 2; i++ {
+				if a.Args[i].Key() == tk && a.Args[1-i].IsConst() {
+					upd(a.Args[1-i].Int)
+				}
+			}
+		}
+	}
+	if t.Op == "len" || t.Op == "cap" {
+		upd(0)
+	}
+	return best, ok
+}
+
+func (f *FactSet) upperConst(atoms map[string]*Term, t *Term, depth int) (int64, bool) {
+	if t.IsConst() {
+		return t.Int, true
+	}
+	best, ok := int64(0), false
+	upd := func(v int64) {
+		if !ok || v < best {
+			best, ok = v, true
+		}
+	}
+	tk := t.Key()
+	for _, a := range atoms {
+		switch a.Op {
+		case "<=", "<":
+			if a.Args[0].Key() != tk {
+				continue
+			}
+			x := a.Args[1]
+			sub := int64(0)
+			if a.Op == "<" {
+				sub = 1
+			}
+			if x.IsConst() {
+				upd(x.Int - sub)
+			} else if depth < 2 {
+				if v, o := f.upperConst(atoms, x, depth+1); o {
+					upd(v - sub)
+				}
+			}
+		case "==":
+			for i := 0; i < 2; i++ {
+				if a.Args[i].Key() == tk && a.Args[1-i].IsConst() {
+					upd(a.Args[1-i].Int)
+				}
+			}
+		}
+	}
+	return best, ok
+}
+
+// stripBoundedConv removes an integer conversion whose operand is known (by the
+// facts) to lie in [0, 2^31): in that range the conversion keeps the value.
+func (p *Prog) stripBoundedConv(fs *FactSet, t *Term) *Term {
+	for t.Op == "conv" && len(t.Args) == 1 {
+		atoms := fs.resolvedAtoms()
+		lo, okL := fs.lowerConst(atoms, t.Args[0], 0)
+		hi, okH := fs.upperConst(atoms, t.Args[0], 0)
+		if okL && okH && lo >= 0 && hi < (1<<31) {
+			t = t.Args[0]
+			continue
+		}
+		break
+	}
+	return t
 }
